@@ -20,6 +20,7 @@ def main(argv=None):
     c.add_argument("--tier", default=os.environ.get("VERIF_TIER", "quick"), choices=["quick", "thorough"])
     c.add_argument("--jobs", default=None, help="only jobs whose name contains this substring")
     c.add_argument("--nproc", type=int, default=None)
+    sub.add_parser("selftest")
     r = sub.add_parser("replay")
     r.add_argument("path")
     a = ap.parse_args(argv)
@@ -31,6 +32,11 @@ def main(argv=None):
         work = os.environ.get("SYMX_WORK", "/verif/.work")
         shutil.rmtree(work, ignore_errors=True)
         sys.exit(code)
+    elif a.cmd == "selftest":
+        from symx import selftest
+        d, f = selftest.run(1500)
+        print(d, "cases;", len(f), "failures", f[:5])
+        sys.exit(1 if f else 0)
     else:
         with open(a.path) as fh:
             d = json.load(fh)
